@@ -42,4 +42,6 @@ class MeshTri2(Mesh2D2, MeshTri1):
         return MeshTri2.from_mesh(MeshTri1.from_mesh(self).refined())
 
     def _adaptive(self, marked):
-        return MeshTri2.from_mesh(MeshTri1.from_mesh(self).refined(marked))
+        m = replace(MeshTri1.from_mesh(self),
+                    _subdomains=self._subdomains).refined(marked)
+        return replace(MeshTri2.from_mesh(m), _subdomains=m._subdomains)
